@@ -65,7 +65,7 @@ func c13(r *Report) {
 			r.Gate(Gate{ID: "C13.tx1.operation", Fn: cl1, Effect: SuccessReturn(), Check: ErrCheck(DynParam("operation"))})
 			r.Gate(Gate{ID: "C13.tx1.changelog-saved", Fn: cl1, Effect: SuccessReturn(), ForEach: true, Check: Check{Desc: "tx.Save(&change).Error == nil", Pass: ErrNil, Values: dbErrorOf(Fn(gormPkg, "DB", "Save"))}})
 			// tx2 closure: deletes of document versions only under errManager != nil; change-log delete only under errManager == nil
-			errMgr := CapturedLoads("errManager")
+			errMgr := CellLoadsStoredFrom(Fn(dsub, "MethodManager", "Commit"), -1)
 			r.Gate(Gate{ID: "C13.tx2.versions-deleted-iff-commit-failed", Fn: cl2, Effect: deleteOf("DidDocument"), Check: Check{Desc: "errManager != nil", Pass: NonNil, Values: errMgr}})
 			r.Gate(Gate{ID: "C13.tx2.log-deleted-iff-committed", Fn: cl2, Effect: deleteOf("DIDChangeLog"), Check: Check{Desc: "errManager == nil", Pass: ErrNil, Values: errMgr}})
 		}
@@ -252,6 +252,35 @@ func c13SweepPerTransaction(r *Report, cl *ssa.Function) {
 		}
 	}
 	r.Sites += 2
+	if isC != nil && del == nil {
+		// the delete loop may have been extracted into a helper: the helper deletes in a loop of its own, and it is called
+		// in the per-transaction loop, outside the status loop
+		for _, b := range cl.Blocks {
+			for _, in := range b.Instrs {
+				ci, ok := in.(ssa.CallInstruction)
+				if !ok {
+					continue
+				}
+				h := ci.Common().StaticCallee()
+				if h == nil || h.Pkg != Outer(cl).Pkg || h.Parent() != nil || len(h.Blocks) == 0 {
+					continue
+				}
+				hl := Loops(h)
+				for _, hb := range h.Blocks {
+					for _, hin := range hb.Instrs {
+						if gormModelCall(hin, "Delete", "DidDocument") && InnermostLoop(hl, hb) != nil {
+							l1 := InnermostLoop(loops, isC.Block())
+							lc := InnermostLoop(loops, in.Block())
+							if l1 != nil && lc != nil && lc != l1 && lc.Body[isC.Block()] {
+								r.OK(key, rule, r.P.Pos(isC.Pos()), "status loop here; delete loop in helper "+r.P.FuncName(h)+", called once per transaction", true)
+								return
+							}
+						}
+					}
+				}
+			}
+		}
+	}
 	if isC == nil || del == nil {
 		r.Lost(key, rule, "IsCommitted / Delete(DidDocument) not found")
 		return
@@ -388,7 +417,19 @@ func c13Compensation(r *Report, th, rb *ssa.Function) {
 	removedBy := func(fn *ssa.Function) (map[string]bool, bool) {
 		removed := map[string]bool{}
 		guarded := true
+		fns := WithAnons(fn)
 		for _, f := range WithAnons(fn) {
+			for _, b := range f.Blocks {
+				for _, in := range b.Instrs {
+					if ci, ok := in.(ssa.CallInstruction); ok {
+						if h := ci.Common().StaticCallee(); h != nil && h.Pkg == fn.Pkg && h.Parent() == nil && len(h.Blocks) > 0 && h != fn {
+							fns = append(fns, WithAnons(h)...) // a private helper the code was extracted into
+						}
+					}
+				}
+			}
+		}
+		for _, f := range fns {
 			for _, b := range f.Blocks {
 				for _, in := range b.Instrs {
 					for model, table := range tableOf {
